@@ -12,8 +12,10 @@ for pr in props:
         cat = 'proof'
         text = ('Lean 4 theorems about a hand-written model of the code (kernel-checked and axiom-audited on every run: %s) '
                 'tied to /repo by a differential correspondence run of the real code against the model\'s executable definitions '
-                'on generated programs. %s' % (', '.join(t.split('.')[-1] for t in thms), GAPS.get(pid, '')))
-        tech = 'Lean 4 proof over a hand-written model + differential correspondence check (model vs real code)'
+                'on generated programs; where the Go source is regular (component bodies, backward-rule closures, validators) the model definitions are also '
+                'equated, by kernel-checked equations, with definitions regenerated from the source on every run (a drift escalates the search, DESIGN 4b). %s' % (', '.join(t.split('.')[-1] for t in thms), GAPS.get(pid, '')))
+        tech = ('Lean 4 proof over a hand-written model + differential correspondence check (model vs real code); for the regular parts of the code '
+                'additionally kernel-checked equations between the model and definitions regenerated from the Go source on every run')
     else:
         cat = 'translation_validation'
         text = ('No theorem is registered for this property yet: the check is the correspondence half of the technique only — '
@@ -43,12 +45,12 @@ m = {
         'source_commits': [],
         'add_only': True,
     },
-    'engines': [{'name': 'lean4-model+correspondence', 'path': 'lean/ harness/ gen/ extract/ check',
+    'engines': [{'name': 'lean4-model+correspondence', 'path': 'lean/ harness/ gen/ extract/ xlate/ check',
                  'serves_properties': [p['id'] for p in props],
-                 'kind_free_text': 'Lean 4 model and theorems (lean/), Go interpreter over the real public API (harness/), python generators and differ (gen/), go/ast fact extractor (extract/), driver script (check)'}],
+                 'kind_free_text': 'Lean 4 model and theorems (lean/), Go interpreter over the real public API (harness/), python generators and differ (gen/), go/ast fact extractor (extract/), Go-to-Lean translator for the regular parts of the source (xlate/, lean/QeepGen, lean/QeepTie), driver script (check)'}],
     'checks': checks,
     'not_applicable': [],
-    'notes': 'see DESIGN.md; known_findings.json lists the one unrepaired defect (D2) and the eight repaired ones; seeded/ holds forty seeded changes, all caught',
+    'notes': 'see DESIGN.md; known_findings.json lists the two unrepaired defects (D2 Broadcast-mean, D11 Sigmoid gradient NaN below -709.78) and the eight repaired ones; seeded/ holds 160 seeded changes (eight rounds), all caught by the quick tier of their property; harmless/ holds 20 behaviour-preserving refactorings, no alarm',
 }
 json.dump(m, open('/verif/MANIFEST.json', 'w'), indent=1)
 print('proof:', [c['property_id'] for c in checks if c['level_claimed']['category'] == 'proof'])
